@@ -52,7 +52,7 @@ class FunctionInfo:
 
 class ClassInfo:
     __slots__ = ('name', 'qual', 'node', 'module', 'base_names', 'bases', 'methods', 'attrs', 'is_enum',
-                 'enum_members', 'subclasses', 'slots')
+                 'enum_members', 'subclasses', 'slots', 'fields', 'is_record')
 
     def __init__(self, name, qual, node, module):
         self.name = name
@@ -67,6 +67,8 @@ class ClassInfo:
         self.enum_members = []   # [(name, ast expr)]
         self.subclasses = []
         self.slots = None
+        self.fields = []         # annotated class-level names in order: [(name, default expr or None)]
+        self.is_record = False   # typing.NamedTuple subclass or @dataclass: the constructor takes the fields
 
     def mro(self):
         out = [self]
@@ -101,7 +103,7 @@ class ClassInfo:
 
 class ModuleInfo:
     __slots__ = ('name', 'path', 'relpath', 'tree', 'source', 'functions', 'classes', 'assigns', 'imports',
-                 'secp_names', 'ecdsa_names', 'digest')
+                 'secp_names', 'ecdsa_names', 'digest', 'secp_nodes', 'ecdsa_nodes', 'try_of')
 
     def __init__(self, name, path, relpath, source):
         self.name = name
@@ -115,6 +117,9 @@ class ModuleInfo:
         self.imports = {}        # local name -> ('module', dotted) | ('from', dotted module, name)
         self.secp_names = set()
         self.ecdsa_names = set()
+        self.secp_nodes = set()      # id() of module-level assignment values made in the `try:` arm of the back-end import
+        self.ecdsa_nodes = set()     # ... in its `except ImportError:` arm
+        self.try_of = {}             # id(assignment value) -> module-level `try` statement it sits in (environment probes)
         self.digest = hashlib.sha256(source.encode()).hexdigest()
 
 
@@ -194,6 +199,10 @@ class Program:
                     ci.base_names.append(ast.unparse(b))
             if any(b in ('Enum', 'enum.Enum', 'IntEnum', 'enum.IntEnum') for b in ci.base_names):
                 ci.is_enum = True
+            if any(b in ('NamedTuple', 'typing.NamedTuple') for b in ci.base_names) or any(
+                    (isinstance(d, ast.Name) and d.id == 'dataclass') or (isinstance(d, ast.Attribute) and d.attr == 'dataclass')
+                    or (isinstance(d, ast.Call) and ast.unparse(d.func).endswith('dataclass')) for d in node.decorator_list):
+                ci.is_record = True
             for st in node.body:
                 if isinstance(st, ast.FunctionDef):
                     kind = _decorator_kind(st) or 'method'
@@ -210,8 +219,10 @@ class Program:
                             ci.slots = None
                     elif ci.is_enum:
                         ci.enum_members.append((st.targets[0].id, st.value))
-                elif isinstance(st, ast.AnnAssign) and isinstance(st.target, ast.Name) and st.value is not None:
-                    ci.attrs[st.target.id] = st.value
+                elif isinstance(st, ast.AnnAssign) and isinstance(st.target, ast.Name):
+                    ci.fields.append((st.target.id, st.value))
+                    if st.value is not None:
+                        ci.attrs[st.target.id] = st.value
             mi.classes[node.name] = ci
             self.classes[ci.qual] = ci
         elif isinstance(node, ast.Assign):
@@ -229,17 +240,38 @@ class Program:
             ) and any(isinstance(s, ast.ImportFrom) and s.module and s.module.startswith('pysecp256k1')
                       or isinstance(s, ast.Import) and any(a.name.startswith('pysecp256k1') for a in s.names)
                       for s in node.body)
+            def bound_by(s_):
+                out = set()
+                for n_ in ast.walk(s_):
+                    if isinstance(n_, (ast.Import, ast.ImportFrom)):
+                        for a_ in n_.names:
+                            out.add((a_.asname or a_.name).split('.')[0])
+                    elif isinstance(n_, ast.Name) and isinstance(n_.ctx, ast.Store):
+                        out.add(n_.id)
+                return out
+
+            def values_of(s_):
+                if isinstance(s_, ast.Assign):
+                    return [s_.value]
+                if isinstance(s_, ast.AnnAssign) and s_.value is not None:
+                    return [s_.value]
+                return []
+            if not is_backend:
+                for s in node.body + [x for h in node.handlers for x in h.body] + node.orelse + node.finalbody:
+                    for sub in ast.walk(s):
+                        for v in values_of(sub):
+                            mi.try_of[id(v)] = node
             for s in node.body:
-                before = set(mi.imports) | set(mi.assigns)
                 self._index_stmt(mi, s, cond)
                 if is_backend:
-                    mi.secp_names |= (set(mi.imports) | set(mi.assigns)) - before
+                    mi.secp_names |= bound_by(s)
+                    mi.secp_nodes |= {id(v) for v in values_of(s)}
             for h in node.handlers:
                 for s in h.body:
-                    before = set(mi.imports) | set(mi.assigns)
                     self._index_stmt(mi, s, cond)
                     if is_backend:
-                        mi.ecdsa_names |= (set(mi.imports) | set(mi.assigns)) - before
+                        mi.ecdsa_names |= bound_by(s)
+                        mi.ecdsa_nodes |= {id(v) for v in values_of(s)}
             for s in node.orelse + node.finalbody:
                 self._index_stmt(mi, s, cond)
         elif isinstance(node, ast.If):
